@@ -33,6 +33,7 @@ func main() {
 		"error-redirect:provider", "error-redirect:legacy",
 		"refused-unregistered:provider", "refused-unregistered:legacy",
 		"malformed-glob-decided:legacy",
+		"meta-subst-refused:provider", "meta-subst-refused:legacy",
 		"glob-redirect", "loopback-twin-redirect",
 	)
 	cases := run.N(15000, 240000)
